@@ -1,4 +1,5 @@
 pub mod child;
+pub mod probes;
 pub mod report;
 pub mod runner;
 pub mod sched;
